@@ -2,7 +2,7 @@
 From Coq Require Import NArith ZArith List Bool.
 From Coq.Strings Require Import Byte.
 From LV Require Import Lib.Bytes Wire.Push Wire.Script Model.C16_Env Model.C16_Wire Model.C16_Url Model.C16_All Model.C16_Attrs
-  Model.C16_Embed Proofs.C16_Env Proofs.C16_Wire Proofs.C16_Url Proofs.C16_All Proofs.C16_Attrs Proofs.C16_Embed.
+  Model.C16_Embed Model.C06 Model.C16_Fee Proofs.C16_Fee Proofs.C16_Env Proofs.C16_Wire Proofs.C16_Url Proofs.C16_All Proofs.C16_Attrs Proofs.C16_Embed.
 Import ListNotations.
 
 (* ================= (a) the signature envelope (base.py Signable, purchase.py) ================= *)
@@ -170,6 +170,39 @@ Theorem C16_media_step_switch : forall (k k' : N) (vals : mvals), k <> k' ->
 Proof. exact (fun k k' vals H => conj (media_step_switch k k' vals H) (media_step_keep k vals)). Qed.
 Print Assumptions C16_media_step_switch.
 
+(* ================= (f) fee addresses and signature state ================= *)
+
+(* Fee.address: for every stored address (any bytes with a non-zero byte; leading zero bytes -- Bitcoin-style
+   '1...' addresses -- included) the text shown decodes to exactly those bytes *)
+Theorem C16_fee_address_roundtrip : forall b : bytes, (exists c, In c b /\ c <> x00) ->
+  exists t, fee_address b = Some t /\ fee_address_bytes t = Ok b.
+Proof. exact fee_address_roundtrip. Qed.
+Print Assumptions C16_fee_address_roundtrip.
+
+(* ... and an address text that was set (not all '1') reads back as the same text *)
+Theorem C16_fee_address_text_roundtrip : forall t b : bytes,
+  fee_address_bytes t = Ok b -> (exists c, In c t /\ c <> one_char) -> fee_address b = Some t.
+Proof. exact fee_address_text_roundtrip. Qed.
+Print Assumptions C16_fee_address_text_roundtrip.
+
+Theorem C16_fee_address_leading_zero : forall r t : bytes,
+  fee_address (x00 :: r) = Some t -> exists t', t = one_char :: t'.
+Proof. exact fee_address_leading_zero. Qed.
+Print Assumptions C16_fee_address_leading_zero.
+
+(* after ANY history of signing and clearing, an object equals what its own bytes parse back to: signature
+   AND signing channel of the decoded envelope are those of the object *)
+Theorem C16_signature_state_reparse : forall (ops : list sigop) (payload : bytes), Forall sigop_wf ops ->
+  exists d, sig_to_bytes (sig_run ops) payload = Some d /\
+            exists e, env_decode d = EnvOk e /\ sig_of_env e = sig_run ops /\ env_payload e = payload.
+Proof. exact sig_reparse. Qed.
+Print Assumptions C16_signature_state_reparse.
+
+Theorem C16_clear_forgets_channel : forall ops : list sigop,
+  st_channel_hash (sig_run (ops ++ [OpClear])) = None /\ st_signature (sig_run (ops ++ [OpClear])) = None.
+Proof. exact sig_clear_forgets_channel. Qed.
+Print Assumptions C16_clear_forgets_channel.
+
 (* ================= (c) URLs ================= *)
 
 (* every well-formed URL value prints to a string that parses back to exactly that value *)
@@ -302,4 +335,11 @@ Example C16_ex_media_step :
    media_step (Some (1, (1920, 1080, 3600))) (Some 1) (Some 0) None None,
    media_step (Some (1, (1920, 1080, 3600))) (Some 0) None (Some 4) None) =
   (None, Some (1, (0, 1080, 3600)), Some (0, (0, 4, 0))).
+Proof. vm_compute. reflexivity. Qed.
+(* the 25 raw bytes 00 01 .. 18 of a Bitcoin-style address: the text starts with '1' and decodes back *)
+Example C16_ex_btc_address :
+  match fee_address (x00 :: map byte_of_N [1;2;3;4;5;6;7;8;9;10;11;12;13;14;15;16;17;18;19;20;21;22;23;24]%N) with
+  | Some t => (hd x00 t, fee_address_bytes t)
+  | None => (x00, Err EEmpty)
+  end = (x31, Ok (x00 :: map byte_of_N [1;2;3;4;5;6;7;8;9;10;11;12;13;14;15;16;17;18;19;20;21;22;23;24]%N)).
 Proof. vm_compute. reflexivity. Qed.
